@@ -254,6 +254,18 @@ def edit_real(text, sites, rng, intensity):
                 k = rng.randrange(1, len(parts))
                 parts[k] = rng.choice(["", "  ", "\t"]) + parts[k] if parts[k] else parts[k]
                 body = " ".join(parts)
+        # blanks between tokens that were written without any: around ':' and '=' of Pythia / JetSet statements,
+        # in front of the terminating ';'
+        if rng.random() < intensity * 2 and "#" not in body and body.lstrip().startswith(("Pythia", "JetSetPar")):
+            head, _, rest = body.partition(" ")
+            rest = rest.replace("=", rng.choice([" =", "= ", " = "]), 1)
+            if head.lstrip().startswith("Pythia"):
+                rest = rest.replace(":", rng.choice([" :", ": ", " : "]), 1)
+            body = head + " " + rest
+        if rng.random() < intensity and "#" not in body and body.rstrip().endswith(";"):
+            b = body.rstrip()
+            k = len(b) - len(b.rstrip(";"))
+            body = b[: len(b) - k] + rng.choice([" ", "\t", "  "]) + ";" * k
         if rng.random() < intensity / 2:
             eol = "\r\n"
         out.append(body + eol)
